@@ -528,6 +528,9 @@ func c20LongLivedPlain(c *Ctx, accs []Access) {
 		if allocIn[k][true] == 0 || allocIn[k][false] > 0 {
 			continue // not (only) built by construction-only code
 		}
+		if !heldLongTerm(c, a.OwnerT) {
+			continue // no member or package variable of the library can hold such an object: it lives in locals of one call
+		}
 		n++
 		if len(a.Locks) > 0 {
 			continue // written under some mutex of its holder: judged by the holder's rules
@@ -874,4 +877,65 @@ func c20FanoutWrite(c *Ctx) {
 	if nGo < 1 {
 		c.R.Break("R-fanout-write: no goroutine started in a loop with a closure found (the rule has nothing to look at)")
 	}
+}
+
+
+// heldLongTerm: some struct member or package-level variable of the library has a type that mentions T (directly, by
+// pointer, as element of a slice / array / map / channel, or through an interface T implements). An object of a type
+// nothing can hold lives in the locals of the call that created it.
+func heldLongTerm(c *Ctx, T *types.Named) bool {
+	var mentions func(t types.Type, d int) bool
+	mentions = func(t types.Type, d int) bool {
+		if d > 5 || t == nil {
+			return false
+		}
+		if types.Identical(t, T) {
+			return true
+		}
+		switch u := t.(type) {
+		case *types.Pointer:
+			return mentions(u.Elem(), d+1)
+		case *types.Slice:
+			return mentions(u.Elem(), d+1)
+		case *types.Array:
+			return mentions(u.Elem(), d+1)
+		case *types.Chan:
+			return mentions(u.Elem(), d+1)
+		case *types.Map:
+			return mentions(u.Key(), d+1) || mentions(u.Elem(), d+1)
+		case *types.Named:
+			if iface, ok := u.Underlying().(*types.Interface); ok && iface.NumMethods() > 0 {
+				return types.Implements(T, iface) || types.Implements(types.NewPointer(T), iface)
+			}
+		case *types.Interface:
+			if u.NumMethods() > 0 {
+				return types.Implements(T, u) || types.Implements(types.NewPointer(T), u)
+			}
+		}
+		return false
+	}
+	for _, pk := range c.P.Pkgs {
+		sc := pk.Types.Scope()
+		for _, name := range sc.Names() {
+			switch o := sc.Lookup(name).(type) {
+			case *types.Var:
+				if mentions(o.Type(), 0) {
+					return true
+				}
+			case *types.TypeName:
+				nt, ok := o.Type().(*types.Named)
+				if !ok || nt == T {
+					continue
+				}
+				if st, ok := nt.Underlying().(*types.Struct); ok {
+					for i := 0; i < st.NumFields(); i++ {
+						if mentions(st.Field(i).Type(), 0) {
+							return true
+						}
+					}
+				}
+			}
+		}
+	}
+	return false
 }
